@@ -15,9 +15,16 @@ CLAIM = dict(
          "is proved on a model where the iteration order is an explicit argument: unregister_package's retains, "
          "define_type's sorted scan (unique sorted order), encode_imports' explicit_imports loop, name_redirects' "
          "pointwise update are order-independent; world_include's missing-name report, find_semver_compatible_interface "
-         "and `wac plug` grouping are refuted (reported findings). (3) For EVERY graph-API history the model's full "
+         "and `wac plug` grouping (the code before the repairs) are refuted; on the current tree every site is "
+         "order-irrelevant with a theorem or an explicit by-inspection label. (3) For EVERY graph-API history the model's full "
          "final state (incl. adjacency order, which feeds toposort) and all results are independent of order oracles "
-         "for every hash-ordered iteration, via an invariant proved by induction over histories. (4) Search: generated "
+         "for every hash-ordered iteration, via an invariant proved by induction over histories; the structural encoder "
+         "model of C02/C03 is wrapped with iteration/representation oracles for explicit_imports, instantiations, encoded, "
+         "node_indexes, packages and implicit_args: the item log, names section and error (incl. the merge-conflict "
+         "payload) are independent of all of them, also composed with histories. The emission order is characterised: "
+         "a node not reachable from a larger index precedes all larger nodes, sources come in index order, a forward "
+         "graph is emitted in index order; the literal 'independent nodes in index order' is refuted (model and real "
+         "encoder). (4) Search: generated "
          "histories (base types after dependants, many same-rank nodes, overlapping implicit imports, explicit imports) "
          "and all WAC fixtures are executed twice per process, on a cloned graph and in N fresh processes; SHA-256 of "
          "encoded bytes (both dependency modes), printed text, AST, dot rendering and rendered diagnostics must coincide.",
@@ -26,31 +33,24 @@ CLAIM = dict(
          "sites, unparseable input fails the check); Graph.v's correspondence with graph.rs is C06's differential check; "
          "the models of the encoder loop / aggregator / world_include are small hand-written loop models; classification "
          "reason DebugNotRendered (derived Debug of hash-bearing types reaches only log output) is by inspection. "
-         "Two findings on the current tree are reported as known (world_include diagnostic, aggregator interface scan).",
+         "EncodeModel's correspondence with the real encoder is C02/C03's differential check (two emission-order "
+         "predictions are also replayed here). The two findings of the first round were repaired (c407668, 02411ca).",
     technique="source-to-Coq translator + reflection (site coverage), Coq proofs with order oracles (Permutation), "
               "multi-process differential execution")
 
 # Findings of this property that are not (yet) in known-findings.json; the main session decides about them.
-PROPOSED_KNOWN = [
-    dict(property="C16", id="world-include-missing-name-hash-order", status="known",
-         signature="document case; only the rendered resolve diagnostic differs; every variant is "
-                   "MissingWorldInclude (`does not have an import or export named`), i.e. an `include .. with` clause "
-                   "with two or more names the included world does not have",
-         witness="W include-missing-many.wac: world b { include a with { aa as a1, bb as b1, ..., hh as h1 }; } where world a has none of them",
-         text="world_include reports `replacements.values().next()`: with two or more unused `with` names the name in the "
-              "MissingWorldInclude diagnostic (and its span) depends on HashMap iteration order; differs between processes "
-              "and between two runs in one process. Repair: /verif/hooks/fix-c16-world-include-missing-order.patch "
-              "(first unused item in source order)"),
-    dict(property="C16", id="aggregator-interface-track-hash-order", status="known",
-         signature="history case importing interface kind 7 (an interface that `uses` a type of another interface on "
-                   "its own semver track) together with a third interface of that track; only encoded bytes / dot differ",
-         witness="H imp 21 7;imp 22 8",
-         text="TypeAggregator::find_semver_compatible_interface returns the first entry of the `interfaces` HashMap on the "
-              "requested semver track; remap_interface can register two different aggregated interfaces on one track "
-              "(a:b/c@1.0.0 using a type of a:b/c@1.1.0), so a:b/c@1.2.0 is merged into either: encoded bytes differ "
-              "between processes and between two encodes of the same graph. Repair: "
-              "/verif/hooks/fix-c16-aggregator-interfaces-order.patch (insertion-ordered map)"),
-]
+# Both findings of the first round (world-include-missing-name-hash-order, aggregator-interface-track-hash-order)
+# were repaired in the repository (c407668, 02411ca) and are recorded as "fixed" in known-findings.json: nothing is
+# suppressed any more.  Their witnesses stay in the generated case list as regression cases.
+PROPOSED_KNOWN = []
+
+# emission order predicted by the model (props/C16.v section 9): case -> the items that must appear in this order
+ORDER_PREDICTIONS = {
+    # a dependant (node 0), an unrelated type (node 1), then the base type (node 2): toposort model gives [1; 2; 0]
+    "H def 11 1;def 12 9;def 13 0": ["X:t-b=", "X:t-c=", "X:t-a="],
+    # every edge from a smaller to a larger index: index order (imports are emitted first by encode_imports)
+    "H imp 21 0;imp 22 1;def 11 0;def 12 1;reg 0;inst 0 0": ["I:imp-a", "I:imp-b", "X:t-a=", "X:t-b=", "S:c0("],
+}
 
 SITE_RE = re.compile(r'mk_site\s+("(?:[^"]|"")*")\s+("(?:[^"]|"")*")\s+("(?:[^"]|"")*")\s+("(?:[^"]|"")*")\s+(\w+)\s+'
                      r'("(?:[^"]|"")*")\s+("(?:[^"]|"")*")', re.S)
@@ -150,7 +150,14 @@ def run(res, tier, seed, replay):
             known[e["id"]] = e
     kinds, diffs, known_hits, nontrivial, aborts = {}, [], {}, set(), 0
     enc_ok = enc_err = diag_cases = 0
+    order_mismatch = []
     for c, line in zip(cases, impl):
+        if c in ORDER_PREDICTIONS and line.startswith("SAME "):
+            m = re.search(r"orderA=([^|]*)", line)
+            got = m.group(1) if m else ""
+            pos = [got.find(x) for x in ORDER_PREDICTIONS[c]]
+            if -1 in pos or pos != sorted(pos):
+                order_mismatch.append((c, got))
         k = c[:1]
         kinds[k] = kinds.get(k, 0) + 1
         if line.startswith("SAME "):
@@ -215,5 +222,12 @@ def run(res, tier, seed, replay):
         if res.proof_broken:
             payload["also_broken_obligation"] = res.proof_broken
         res.violation(payload)
+    res.coverage["order_predictions_checked"] = len([c for c in cases if c in ORDER_PREDICTIONS])
+    if not diffs and order_mismatch:
+        c, got = order_mismatch[0]
+        res.violation(dict(kind="correspondence-broken", correspondence="EncodeModel.toposort vs CompositionGraphEncoder::toposort",
+                           what="the emission order of the real encoder is not the one the toposort model predicts "
+                                "(props/C16.v section 9); observations are still identical across executions",
+                           case=c, cases=[c], expected_order=ORDER_PREDICTIONS[c], observed=got), no_input=True)
     if not diffs and res.proof_broken:
         res.violation(res.proof_broken, no_input=True)
